@@ -43,6 +43,10 @@ def tweak(rng, sc):
     allc = sorted({"%s-web-%d" % (t, o) for t in cl for o in range(0, 8)})
     sc["api"]["claims"] = [c for c in allc if rng.random() < 0.5]
     sc["cache"]["claims"] = [c for c in sc["api"]["claims"] if rng.random() < 0.8]
+    if rng.random() < 0.12:
+        # the pod template carries what a pasted pod manifest carries: a controlling owner reference, name, namespace, uid
+        for w in (sc["api"], sc["cache"]):
+            w["set"]["tmpl_meta"] = "junk"
     if rng.random() < 0.12 and not sc["api"].get("others") and not sc["cache"].get("others"):
         # a set whose name is as long as a label value may be (63): S-i is then longer than a DNS label
         sc = gen.rename_set(sc, gen.long_name(rng, 60, 63))
